@@ -254,7 +254,15 @@ class C10:
                b"S'" + b"\\'\\\"\\x41\\\\" * 500 + b"'\n.", b"S\"" + b"q" * 4092 + b"\\\"\\n" + b"\"\n.", b"V" + b"w" * 5000 + b"\r\n.",
                b"I" + b"1" * 4095 + b"\n.", b"L" + b"2" * 4096 + b"L\n.", b"cmod\n" + b"n" * 5000 + b"\n.", b"P" + b"i" * 4097 + b"\n."]
         import pickle
+        import struct
         out += [pickle.dumps("\u20ac\u0100" * 800 + "\n\\", 0), pickle.dumps(["x" * 5000, "\u1234" * 700], 0)]
+        # payloads beyond the decoder's 64 KiB pre-allocation cap, in every length-prefixed form
+        for n in (65535, 65536, 65537, 70001, 131073):
+            pay = bytes((i * 7 + 3) % 251 for i in range(n))
+            out += [b"T" + struct.pack("<I", n) + pay + b".", b"B" + struct.pack("<I", n) + pay + b".",
+                    b"\x96" + struct.pack("<Q", n) + pay + b".", b"X" + struct.pack("<I", n) + b"u" * n + b".",
+                    b"\x8e" + struct.pack("<Q", n) + pay + b".", b"\x8d" + struct.pack("<Q", n) + b"v" * n + b"."]
+        out += [pickle.dumps(["a" * 70000, b"b" * 66000, bytearray(b"c" * 65600)], p) for p in (2, 3, 4, 5)]
         out += own_corpus("C10")
         # encoder output (through the implementation itself)
         vals = []
@@ -278,6 +286,7 @@ class C10:
     def run(self, ctx):
         rng = ctx.rng
         lines, meta = [], []
+        big_lines, big_meta = [], []
         seen = set()
         for data in self.pickles(ctx):
             if data in seen:
@@ -288,9 +297,19 @@ class C10:
                 for cfg in dict.fromkeys(cfgs):
                     lines.append(f"cuts {cfg} {hexs(data)}")
                     meta.append((cfg, data, None))
+            elif len(data) > 20000:
+                # very long pickles (payloads beyond the 64 KiB pre-allocation cap): the property is evaluated directly on the
+                # implementation, each cut through readers of different kinds (with / without Len, buffered or not)
+                ks = set(range(1, 20)) | set(range(len(data) - 40, len(data))) | set(range(4090, 4104)) | set(range(65530, 65560))
+                ks |= set(range(131070, 131090)) | {rng.randrange(1, len(data)) for _ in range(60)}
+                ks = sorted(k for k in ks if 0 < k < len(data))
+                cfg = rng.choice(CFGS)
+                for kind in "BSURO":
+                    big_lines.append(f"cutsk {cfg} {kind} {','.join(map(str, ks))} {hexs(data)}")
+                    big_meta.append((cfg, kind, ks, data))
             else:
                 # long pickles: cuts near the ends of long lines and random ones
-                ks = set(range(1, 8)) | set(range(len(data) - 80, len(data))) | set(range(4090, 4112)) | set(range(8186, 8200))
+                ks = set(range(1, 20)) | set(range(len(data) - 80, len(data))) | set(range(4090, 4112)) | set(range(8186, 8200))
                 ks |= {rng.randrange(1, len(data)) for _ in range(120)}
                 cfg = rng.choice(CFGS)
                 lines.append(f"dec {cfg} - {hexs(data)}")
@@ -299,6 +318,19 @@ class C10:
                     lines.append(f"dec {cfg} - {hexs(data[:k])}")
                     meta.append((cfg, data, k))
         go, lean = run_both(lines)
+        for bl, (cfg, kind, ks, data), g in zip(big_lines, big_meta, C.run_sharded(C.run_go, big_lines)):
+            ctx.evaluations += 1
+            ctx.count(f"big-pickle:reader={kind}:{'valid' if g[:1] == 'V' else 'invalid'}")
+            if g[:1] != "V":
+                continue
+            ctx.nontrivial((cfg, kind, data))
+            letters = g[2:]
+            ctx.count("cuts", len(letters))
+            for k, ch in zip(ks, letters):
+                if ch != "U":
+                    ctx.violate("a proper prefix of a valid pickle does not give (nil, io.ErrUnexpectedEOF)",
+                                f"cutsk {cfg} {kind} {k} {hexs(data[:64])}… ({len(data)} bytes, first byte {data[:1]!r}, cut {k})", "U", ch)
+                    break
         fullok = {}
         for line, (cfg, data, k), g, l in zip(lines, meta, go, lean):
             ctx.evaluations += 1
@@ -739,6 +771,22 @@ class C17:
                         for cfg in ("00", "10"):
                             lines.append(f"dec {cfg} - {hexs(prog)}")
                             meta.append((op, cfg, depth, False, "deep-" + str(kind)))
+        # an unhashable key that has the same Go type as an acceptable key assigned just before it in the same batch
+        # (Ref{1} then Ref{[]}; Ref{Ref{1}} then Ref{Ref{[]}}): hashability is not a property of the dynamic type
+        goods = [b"I1\nQ", b"K\x02QQ", b"Vid\nQ", b"Pabc\n", b"NQ"]
+        for atom in atoms:
+            for bad in (atom + b"Q", atom + b"QQ", atom + b"\x85Q"):
+                for good in goods:
+                    for ngood in (1, 2, 5):
+                        pre = b"".join(good[:-1] + bytes([48 + i]) + good[-1:] if good.startswith(b"V") else good for i in range(ngood))
+                        gk = b"".join((b"K" + bytes([i]) + b"Q") + b"N" for i in range(ngood))      # distinct good Ref keys
+                        progs = {"DICT": b"(" + gk + bad + b"N" + b"d.", "SETITEMS": b"}(" + gk + bad + b"Nu.",
+                                 "SETITEM": b"}" + b"".join(b"K" + bytes([i]) + b"QNs" for i in range(ngood)) + bad + b"Ns.",
+                                 "DICT-mixed": b"(" + good + b"N" + bad + b"N" + good + b"Nd."}
+                        for op, prog in progs.items():
+                            for cfg in ("00", "10", "01"):
+                                lines.append(f"dec {cfg} - {hexs(prog)}")
+                                meta.append((op, cfg, ngood, False, "good-then-bad"))
         for _ in range(ctx.scale(400, 10000)):
             g = P.ProgGen(rng, wellformed=True, allow_unhashable_keys=0.5, colliding=0.2, maxops=rng.choice([10, 25]))
             cfg = rng.choice(CFGS)
@@ -868,6 +916,16 @@ class C18:
                     cfg = rng.choice(CFGS)
                     lines.append(f"dech {cfg} {hook} {hexs(prog)}")
                     meta.append(("dec-id", (hook, pid)))
+        for pid in (b"\nab", b"\n", b"\n\n", b"ab\n", b"a\nb", b"\nP1\n", b"", b"ab", b"\r\n", b"x" * 5000 + b"\n", b"\n" + b"y" * 5000):
+            for v in (("R", ("S", pid)), ("l", [("R", ("S", pid)), ("I", 1)]), ("R", ("Y", pid)), ("t", [("R", ("t", [("S", pid)]))])):
+                for p in range(6):
+                    for su in (0, 1):
+                        lines.append(f"enc {p} {su} - {V.render(v, sort=False)}")
+                        meta.append(("enc", ("-", p, v, False, bool(su))))
+        for _ in range(ctx.scale(300, 6000)):
+            g = P.ProgGen(rng, wellformed=True, persid=0.4, maxops=rng.choice([6, 15, 30]))
+            lines.append(f"dech {rng.choice(CFGS)} {rng.choice(['G0', 'G1', 'G2', 'G4'])} {hexs(g.gen())}")
+            meta.append(("dec", "F" + lines[-1].split(" ")[2][1:]))
         for v, pd, su in self.graphs(ctx, ctx.scale(500, 10000)):
             p = rng.randint(0, 5)
             rh = rng.choice(["-", "S", "S", "T", "N", "E"])
@@ -894,6 +952,8 @@ class C18:
                 ncalls = calls.count("R( ")
                 ctx.count(f"hook={info}:{dec_class(res)}")
                 ctx.count("persistent-load-calls", ncalls)
+                if line.split(" ")[2][:1] == "G" and res.startswith("OK") and l.startswith("ERR"):
+                    ctx.violate("PersistentLoad returned an error (together with a value) but Decode did not fail", line[:600], l[:100], g[:300])
                 if info.startswith("F") and ncalls > int(info[1:]) and not res.startswith("ERR"):
                     ctx.violate("PersistentLoad returned an error but Decode did not fail", line, "ERR", g)
                 if "PANIC" in g:
@@ -901,6 +961,12 @@ class C18:
             else:
                 rh, p, v, pd, su = info
                 enc_tie(ctx, line, g, l, v)
+                if rh == "-" and p == 0 and g.startswith("OK") and V.contains(
+                        v, lambda x: x[0] == "R" and (x[1][0] != "S" or b"\n" in x[1][1])):
+                    ctx.violate("protocol 0 wrote a persistent id that is not a single-line string instead of returning the documented error",
+                                line[:600], "ERR p0-persid", g[:200])
+                if kind == "enc" and rh.startswith("-") and "PANIC" in g:
+                    ctx.violate("Encode panicked", line[:600], "bytes or error", g[:200])
                 ctx.count(f"refhook={rh}:p{p}:{g.split(' ')[0]}{(':' + g.split(' ')[1]) if g.startswith('ERR') else ''}")
                 if rh == "S" and g.startswith("OK "):
                     data = bytes.fromhex("".join(c for c in g[3:].split(",") if c != "-"))
@@ -1074,6 +1140,9 @@ class C19:
                 meta.append(("int", name, n))
         payloads = [b"", b"a", b"abc", b"'", b'"', b"\\", b"\n", b"a\nb", b"\x00", b"\xff", b"\xc3\xa9", "€".encode(), b"\\x41",
                     b"\\u0041", b"'\"", b"x" * 255, b"y" * 256, b"z" * 300, b"\x80abc", b"\r\n\t", b"\x1a\x7f"]
+        payloads += [bytes([b]) for b in range(256)]                       # every byte value on its own
+        payloads += [b"p" * n for n in (4094, 4095, 4096, 4097, 8191, 8192, 8193, 9000, 12289, 20000)]   # text lines over 1, 2, 3+ bufio buffers
+        payloads += [("\u20ac" * 3000).encode(), b"q" * 8190 + b"'\"\\\n" + b"r" * 5000]
         for _ in range(ctx.scale(250, 4000)):
             payloads.append(V.rand_bytes(rng, maxchunks=5))
         for s in payloads:
